@@ -549,6 +549,11 @@ class Interp:
             raise Abort("raise")
         elif isinstance(st, ast.With):
             self.exec_block(st.body, env)
+        elif isinstance(st, ast.Try):
+            # the no-exception path (handlers are not modelled)
+            self.exec_block(st.body, env)
+            self.exec_block(st.orelse, env)
+            self.exec_block(st.finalbody, env)
         elif isinstance(st, (ast.Import, ast.ImportFrom, ast.Global, ast.Nonlocal)):
             return
         elif isinstance(st, ast.FunctionDef):
